@@ -318,16 +318,27 @@ pub fn decisions(evs: &[Ev]) -> Vec<Decision> {
                 rels.push((*s, *o, *r));
                 i += 1;
             }
-            Ev::GetN(b) => {
-                // followed by GetN(a)
-                let a = match evs.get(i + 1) {
-                    Some(Ev::GetN(a)) => *a,
-                    _ => usize::MAX,
+            Ev::GetN(x) => {
+                // the two `get_n` calls of one `swap_on_chunks` (in either order), then an optional swap
+                let y = match evs.get(i + 1) {
+                    Some(Ev::GetN(y)) => *y,
+                    _ => *x + 1,
                 };
-                let accepted = matches!(evs.get(i + 2), Some(Ev::Swap(x, y)) if *x == a && *y == *b);
+                let a = (*x).min(y);
+                let accepted = matches!(evs.get(i + 2), Some(Ev::Swap(p, q)) if (*p).min(*q) == a);
                 let evaluated = !rels.is_empty();
-                let (rel_b, rel_a) = if evaluated && rels.len() == 2 { (rels[0].2, rels[1].2) } else { (1.0, 1.0) };
-                out.push(Decision { left: a, evaluated, rel_b, rel_a, accepted });
+                let (rel_b, rel_a) = if evaluated && rels.len() == 2 {
+                    (rels[0].2, rels[1].2)
+                } else {
+                    (1.0, 1.0)
+                };
+                out.push(Decision {
+                    left: a,
+                    evaluated,
+                    rel_b,
+                    rel_a,
+                    accepted,
+                });
                 rels.clear();
                 i += if accepted { 3 } else { 2 };
             }
@@ -372,10 +383,15 @@ pub fn bisect_pair<Q: Rep>(tc: &TC<Q>, script: &[u64], idx: usize, left: usize) 
 
 /// which pair is treated first (0 → phase a first, 1 → phase b first); needs ≥ 3 replicas
 fn first_left(evs: &[Ev]) -> Option<usize> {
-    for e in evs {
+    for (i, e) in evs.iter().enumerate() {
         match e {
-            Ev::RelW(s, _, _) => return Some(*s),
-            Ev::GetN(b) => return Some(*b - 1),
+            Ev::RelW(s, o, _) => return Some((*s).min(*o)),
+            Ev::GetN(x) => {
+                return match evs.get(i + 1) {
+                    Some(Ev::GetN(y)) => Some((*x).min(*y)),
+                    _ => Some(x.saturating_sub(1)),
+                }
+            }
             _ => {}
         }
     }
@@ -470,7 +486,7 @@ fn describe_after(s: &[Snap]) -> String {
 
 /// One full case on the current state of `tc` (not modified): serial step with `script`, bisection
 /// of every decision, unwrapped and rayon re-runs, oracle. Emits the `sw` line and a `psw` line.
-pub fn step_case<Q: Rep>(tc: &TC<Q>, script_seed: u64, bisect: bool) -> Result<TC<Q>, String> {
+pub fn step_case<Q: Rep>(tc: &TC<Q>, script_seed: u64, bisect: bool) -> Result<(TC<Q>, Vec<u64>), String> {
     let n = tc.num_graphs();
     let mut g = SplitMix64::new(script_seed);
     // enough words for the order draw and all pairs
@@ -516,7 +532,7 @@ pub fn step_case<Q: Rep>(tc: &TC<Q>, script_seed: u64, bisect: bool) -> Result<T
     // --- frames stay, configurations move exactly as the accepted swaps say ---
     let mut perm: Vec<usize> = (0..n).collect(); // perm[pos] = original index of the configuration now at pos
     for d in &decs {
-        if d.accepted {
+        if d.accepted && d.left + 1 < n {
             perm.swap(d.left, d.left + 1);
         }
     }
@@ -565,6 +581,10 @@ pub fn step_case<Q: Rep>(tc: &TC<Q>, script_seed: u64, bisect: bool) -> Result<T
     let mut n_rej = 0;
     for (k, d) in decs.iter().enumerate() {
         let idx = k + 1;
+        if d.left + 1 >= n {
+            fail(format!("decision on a pair outside the ladder: left = {}", d.left));
+            continue;
+        }
         let p = if bisect { bisect_pair(tc, &script, idx, d.left)? } else { -1.0 };
         // oracle on the configurations present at decision time
         let (ga, gb) = {
@@ -643,7 +663,7 @@ pub fn step_case<Q: Rep>(tc: &TC<Q>, script_seed: u64, bisect: bool) -> Result<T
     let pin = format!("psw {} 0 {} {} {} {}", Q::KIND, n, swaps_before, list(&par_words), describe_container(tc));
     let pout = format!("{} {} {} ok", describe_after(&par_after), par_tc.get_total_swaps(), par_acc);
     emit(nontrivial, &pin, &pout, None);
-    Ok(after_tc)
+    Ok((after_tc, words))
 }
 
 // ------------------------------------------------------------------------------------------
@@ -848,7 +868,7 @@ pub fn mode_ising_steps(seed: u64, thorough: bool) {
         let steps = if thorough { 3 } else { 2 };
         for s in 0..steps {
             match step_case(&tc, g.next(), true) {
-                Ok(next) => {
+                Ok((next, _)) => {
                     tc = next;
                     let log2 = new_log();
                     set_log(&mut tc, &log2);
@@ -908,7 +928,7 @@ pub fn mode_generic_steps(seed: u64, thorough: bool) {
         }
         for s in 0..2 {
             match step_case(&tc, g.next(), true) {
-                Ok(next) => {
+                Ok((next, _)) => {
                     tc = next;
                     let log2 = new_log();
                     set_log(&mut tc, &log2);
@@ -1122,7 +1142,7 @@ pub fn mode_pairs(seed: u64, thorough: bool) {
 fn main() {
     quiet_panics();
     let a = args();
-    match a.mode.as_str() {
+    let r = catch(|| match a.mode.as_str() {
         "ising" => mode_ising_steps(a.seed, a.thorough),
         "generic" => mode_generic_steps(a.seed, a.thorough),
         "pairs" => mode_pairs(a.seed, a.thorough),
@@ -1133,6 +1153,9 @@ fn main() {
             mode_pairs(a.seed, a.thorough);
             mode_mismatch(a.seed);
         }
+    });
+    if let Err(e) = r {
+        emit(true, &format!("crash {}", a.mode), "x", Some(Err(format!("harness or library panicked outside a guarded call: {}", e))));
     }
 }
 
